@@ -111,8 +111,14 @@ class C14(PropBase):
                 steps.append({"op": "reuse", "t": t, "first": a, "second": jt, "buf": rng.choice(["bytearray", "mvw"]), "mod": mod,
                               "t_first": t2 if rng.random() < 0.5 else t})
             else:
-                s = jt if jt is not None else "[1, 2]"
-                steps.append({"op": "load_mutate", "s": s, "carrier": rng.choice(["str", "bytes"])})
+                r2 = rng.random()
+                if r2 < 0.4:
+                    # Python-literal (not JSON) text: a tuple that holds mutable containers
+                    s = rng.choice(["(1, [2, 3])", "{'a': (1, {'b': 2})}", "[1, (2, [3])]", "([], {})", "(1, 2), [3]", "{'k': ([1], [2])}", "((), [[]])"])
+                else:
+                    s = jt if jt is not None else "[1, 2]"
+                steps.append({"op": "load_mutate", "s": s, "carrier": rng.choice(["str", "bytes", "mv"]),
+                              "again_carrier": rng.choice(["str", "bytes", "same", "same"])})
         return {"prop": self.ID, "seed": seed, "tier": tier, "world": world, "env": env, "steps": steps_with_ids(steps), "meta": {"swarm": sw}}
 
     # ------------------------------------------------------------------ execution
@@ -174,7 +180,8 @@ class C14(PropBase):
             if touched:
                 sess.faults["mutate_loaded"] += 1
                 sess.fault_fired_before = True
-            again = sess.guarded(serdes.load, sess.V(hist.carry(step["s"], step["carrier"])))
+            ac = step.get("again_carrier", "same")
+            again = sess.guarded(serdes.load, sess.V(hist.carry(step["s"], step["carrier"] if ac == "same" else ac)))
             sess._c14 = (first, again)
             return again
         return None
@@ -252,6 +259,12 @@ class C14(PropBase):
             try:
                 want = _strict_json(s)
             except ValueError:
+                try:
+                    want = ast.literal_eval(s)
+                except Exception:
+                    return
+                if not again.ok or model.canon(again.value) != model.canon(want):
+                    sess.violation("load-after-mutation", i, {"s": s[:100], "got": repr(again)[:140], "want": repr(want)[:100]}, sig="load-after-mutation:literal")
                 return
             if not again.ok or (model.canon(again.value) != model.canon(want) and not _json_number_equiv(again.value, want)
                                 and not _configured_decoder_says(s, again.value)):
